@@ -137,7 +137,8 @@ fn onum<T: std::fmt::Display>(v: Option<T>) -> String {
     }
 }
 
-static SENT: [u8; 8192] = [b'S'; 8192];
+const NSENT: usize = 1 << 17;
+static SENT: [u8; 2 * NSENT] = [b'S'; 2 * NSENT];
 
 /// when set, `run_request`/`run_response` fill the caller's array with `EMPTY_HEADER` (what a real
 /// caller does) instead of recognisable sentinels
@@ -148,19 +149,19 @@ fn fill_header(k: usize) -> Header<'static> {
 }
 
 fn sentinel(k: usize) -> Header<'static> {
-    let k = k % 4096;
+    let k = k % NSENT;
     // SAFETY: SENT is ASCII
     let name = unsafe { std::str::from_utf8_unchecked(&SENT[k..k + 1]) };
-    Header { name, value: &SENT[4096 + k..4096 + k + 1] }
+    Header { name, value: &SENT[NSENT + k..NSENT + k + 1] }
 }
 
 fn slot_str(h: &Header<'_>, buf: &[u8]) -> String {
     let s = SENT.as_ptr() as usize;
     let np = h.name.as_ptr() as usize;
-    if h.name.len() == 1 && np >= s && np < s + 4096 {
+    if h.name.len() == 1 && np >= s && np < s + NSENT {
         let k = np - s;
         let vp = h.value.as_ptr() as usize;
-        if h.value.len() == 1 && vp == s + 4096 + k {
+        if h.value.len() == 1 && vp == s + NSENT + k {
             return format!("s{}", k);
         }
         return "?".to_string();
@@ -373,6 +374,12 @@ fn run_hist(args: &[&str]) -> Option<String> {
     }
     // all buffers must outlive the value: place each at a guard page
     let bufs: Vec<mem::ByteArena> = calls.iter().map(|(_, _, b)| mem::ByteArena::new(b, mem::Place::EndGuard, 0)).collect();
+    // the documented loop (parse, read more into the same buffer, parse again): an earlier buffer that is a
+    // prefix of the probe's buffer is that prefix *in the same memory*, not a copy elsewhere
+    let views: Vec<&[u8]> = (0..=n).map(|i| {
+        let (b, p) = (&calls[i].2, &calls[n].2);
+        if i < n && b.len() <= p.len() && p[..b.len()] == b[..] { &bufs[n].bytes()[..b.len()] } else { bufs[i].bytes() }
+    }).collect();
     // one separate array per call for the uninit entry point (entry code 3); they outlive the value
     let mut uarenas: Vec<mem::HeaderArena> = (0..=n).map(|_| mem::HeaderArena::new(cap, mem::Place::EndGuard)).collect();
     // (pointers with write provenance: derived from `&mut`, not from `base(&self)`)
@@ -396,12 +403,12 @@ fn run_hist(args: &[&str]) -> Option<String> {
             for i in 0..n {
                 let cfg = mk_config(calls[i].1);
                 // SAFETY: each uninit array is used by one call only and outlives `req`
-                let r = if calls[i].0 == 0 { req.parse(bufs[i].bytes()) } else if calls[i].0 == 3 { cfg.parse_request_with_uninit_headers(&mut req, bufs[i].bytes(), unsafe { uslice(uptrs[i], cap) }) } else { cfg.parse_request(&mut req, bufs[i].bytes()) };
+                let r = if calls[i].0 == 0 { req.parse(views[i]) } else if calls[i].0 == 3 { cfg.parse_request_with_uninit_headers(&mut req, views[i], unsafe { uslice(uptrs[i], cap) }) } else { cfg.parse_request(&mut req, views[i]) };
                 out.push_str(&format!("{};", status_str(&r)));
             }
             view_before = req.headers.len();
             let cfg = mk_config(calls[n].1);
-            let b = bufs[n].bytes();
+            let b = views[n];
             // SAFETY: as above
             let r = if calls[n].0 == 0 { req.parse(b) } else if calls[n].0 == 3 { cfg.parse_request_with_uninit_headers(&mut req, b, unsafe { uslice(uptrs[n], cap) }) } else { cfg.parse_request(&mut req, b) };
             let hs = if let Ok(Status::Complete(_)) = r { hdrs_str(req.headers, b) } else { "-".to_string() };
@@ -414,12 +421,12 @@ fn run_hist(args: &[&str]) -> Option<String> {
             for i in 0..n {
                 let cfg = mk_config(calls[i].1);
                 // SAFETY: as above
-                let r = if calls[i].0 == 0 { resp.parse(bufs[i].bytes()) } else if calls[i].0 == 3 { cfg.parse_response_with_uninit_headers(&mut resp, bufs[i].bytes(), unsafe { uslice(uptrs[i], cap) }) } else { cfg.parse_response(&mut resp, bufs[i].bytes()) };
+                let r = if calls[i].0 == 0 { resp.parse(views[i]) } else if calls[i].0 == 3 { cfg.parse_response_with_uninit_headers(&mut resp, views[i], unsafe { uslice(uptrs[i], cap) }) } else { cfg.parse_response(&mut resp, views[i]) };
                 out.push_str(&format!("{};", status_str(&r)));
             }
             view_before = resp.headers.len();
             let cfg = mk_config(calls[n].1);
-            let b = bufs[n].bytes();
+            let b = views[n];
             // SAFETY: as above
             let r = if calls[n].0 == 0 { resp.parse(b) } else if calls[n].0 == 3 { cfg.parse_response_with_uninit_headers(&mut resp, b, unsafe { uslice(uptrs[n], cap) }) } else { cfg.parse_response(&mut resp, b) };
             let hs = if let Ok(Status::Complete(_)) = r { hdrs_str(resp.headers, b) } else { "-".to_string() };
